@@ -120,6 +120,11 @@ pub trait Check: Sync {
     fn run_case(&self, idx: u64, seed: u64, tier: Tier) -> CaseResult;
     /// Re-executes a replay payload; returns the violation if it reproduces.
     fn replay(&self, payload: &Value) -> Result<Option<Violation>, String>;
+    /// Stack size of the thread a case runs on: 8 MiB (a main thread) unless
+    /// the check wants something else for this case.
+    fn stack_bytes(&self, _idx: u64) -> usize {
+        8 * 1024 * 1024
+    }
     /// Whether `exhaustive` may be claimed for this tier, and of what.
     fn exhaustive(&self, _tier: Tier) -> Option<String> {
         None
@@ -209,7 +214,7 @@ pub fn worker_main(check: &'static dyn Check, tier: Tier) {
         let idx: u64 = parts[1].parse().unwrap_or(0);
         let seed: u64 = parts[2].parse().unwrap_or(0);
         let t0 = Instant::now();
-        let mut res = crate::sim::on_big_stack(move || check.run_case(idx, seed, tier));
+        let mut res = crate::sim::on_stack(check.stack_bytes(idx), move || check.run_case(idx, seed, tier));
         res.wall_ms = t0.elapsed().as_millis() as u64;
         let mut out = stdout.lock();
         let _ = writeln!(out, "DONE {}", serde_json::to_string(&res).unwrap());
@@ -310,6 +315,8 @@ impl Aggregate {
 const CASE_TIMEOUT: Duration = Duration::from_secs(180);
 /// Stop handing out cases after this many violations outside the known list.
 const ENOUGH_VIOLATIONS: usize = 60;
+/// Set while dumping findings (a maintenance run wants all of them).
+static NO_EARLY_STOP: std::sync::atomic::AtomicBool = std::sync::atomic::AtomicBool::new(false);
 
 pub fn run_pool(check: &'static dyn Check, tier: Tier, base: u64, n_workers: usize, only: Option<Vec<u64>>) -> Aggregate {
     let exe = std::env::current_exe().expect("current_exe");
@@ -446,7 +453,7 @@ pub fn run_pool_with(check: &'static dyn Check, tier: Tier, base: u64, n_workers
     let known = KnownFindings::load();
     let mut unknown_violations = 0usize;
     for ev in rx {
-        if unknown_violations >= ENOUGH_VIOLATIONS {
+        if unknown_violations >= ENOUGH_VIOLATIONS && !NO_EARLY_STOP.load(Ordering::SeqCst) {
             next.store(u64::MAX / 2, Ordering::SeqCst);
         }
         match ev {
@@ -625,6 +632,9 @@ pub fn check_main(check: &'static dyn Check, tier: Tier, workers: usize, limit: 
     let info = check.info();
     println!("check {} tier={} VERIF_SEED={} cases={} workers={}", info.id, tier.name(), base, check.cases(tier), workers);
     let t0 = Instant::now();
+    if dump.is_some() {
+        NO_EARLY_STOP.store(true, Ordering::SeqCst);
+    }
     let total = limit.map_or(check.cases(tier), |n| n.min(check.cases(tier)));
     let second = std::env::var("SLX_SECOND_PROFILE_BIN").ok().filter(|p| std::path::Path::new(p).exists());
     let agg = match (info.id, second) {
